@@ -325,13 +325,11 @@ def rule_policy_and_wiring(ctx: Ctx):
     f = pol[0]
     s = f.positional_params[0]
     comps = [c for c in ast.walk(f.node) if isinstance(c, ast.ListComp)]
-    ok = None
-    if comps:
-        c = comps[0]
-        cond = c.generators[0].ifs[0] if c.generators[0].ifs else None
-        ok = isinstance(cond, ast.Compare) and isinstance(cond.ops[0], ast.Eq)
-        mx = [a for a in ast.walk(f.node) if isinstance(a, ast.Assign) and isinstance(a.value, ast.Call) and isinstance(a.value.func, ast.Name) and a.value.func.id == "max"]
-        ok = ok and bool(mx) and ast.unparse(cond.comparators[0]) == mx[0].targets[0].id and ".values()" in ast.unparse(mx[0].value)
+    SP = Snips(f)
+    g = SP.solve(["row = q[s]", "maxq = max(row.values())", "[a for a in row.keys() if row[a] == maxq]"], {"q": cp.positional_params[2], "s": s}) or \
+        SP.solve(["row = q[s]", "maxq = max(row.values())", "[a for a in row if row[a] == maxq]"], {"q": cp.positional_params[2], "s": s}) or \
+        SP.solve(["row = q[s]", "maxq = max(row.values())", "[a for a, v in row.items() if v == maxq]"], {"q": cp.positional_params[2], "s": s})
+    ok = g is not None if comps else None
     ctx.check(ok, "POL-1", f, comps[0] if comps else f.node, "greedy actions are exact maximisers of the state's Q-row", "", "the greedy set is not {a : Q[s][a] == max Q[s]}")
     qp = cp.positional_params[2]
     mdpp = cp.positional_params[1]
